@@ -100,12 +100,62 @@ def extra(tier, seed, rep):
     with mp.get_context("fork").Pool(16, maxtasksperchild=1) as pool:
         for case, ev in pool.imap_unordered(_cut_worker, sorted(longlist.CUTS, reverse=True), chunksize=1):
             rep.add_eval(case, ev)
+    for k in range(len(DEREF_ITEM_RULES)):
+        rep.add_eval({"deref_item": k}, eval_deref_item({"deref_item": k}))
+    rep.exhaustive_parts.append(f"$deref written where an instruction is expected: {len(DEREF_ITEM_RULES)} fixed rules")
     rep.exhaustive_parts.append(f"long listings: all {len(longlist.CUTS)} chunk-size candidates x 3 rules at the cut (single instruction, pair across it, instruction after a hex-ending operand)")
+
+
+DEREF_ITEM_RULES = [
+    [{"$deref": {"main_reg": "rax"}}],
+    [{"$deref": {"main_reg": "rax", "constant_offset": "0x8"}}],
+    [{"$or": [{"$deref": {"main_reg": "rax"}}, "zzq"]}],
+    [{"$and": [{"$deref": {"main_reg": "rax"}}]}],
+    ["mov", {"$deref": {"main_reg": "rax"}}],
+]
+
+
+def eval_deref_item(case):
+    """`$deref` written where an instruction is expected (an item of the pattern, a child of an instruction-level group): whatever
+    JASM makes of such a rule - an error is fine - a reported match must begin and end at instruction boundaries and carry an
+    address of the input (F50: it compiles to the bare operand regex and reports `[%rax],` as match and as address)."""
+    ev = Eval()
+    L = [["401000", "push", ["%rbp"], ["%rbp"]], ["401001", "mov", ["(%rax)", "%rbx"], ["[%rax]", "%rbx"]], ["401004", "mov", ["0x8(%rax)", "%rcx"], ["[%rax+0x8]", "%rcx"]], ["401008", "ret", [], []]]
+    NV = norm_view(L)
+    records = [stream_record(a, m, o) for a, m, o in NV]
+    table = record_table(records)
+    from vlib.gen_listing import att_view
+    from vlib.render import render
+
+    res = run_all_modes(jasm_io.make_doc(DEREF_ITEM_RULES[case["deref_item"]]), render(att_view(L)), None, combos=[("list", "all", False), ("list", "all", True)])
+    ev.subcases = 2
+    ev.tags = ["deref-as-item"]
+    ev.nontrivial = True
+    if any(r[0] == "inconclusive" for r in res.values()):
+        ev.inconclusive += 1
+        return ev
+    if any(r[0] == "exc" for r in res.values()):
+        ev.tags.append("deref-as-item=rejected")
+        return ev
+    pos = 0
+    for t in res[("list", "all", False)][1]:
+        ij = locate(t, records, table, pos) if t != "" else None
+        if ij is None:
+            ev.dev("match-not-aligned", observed=t, rule=DEREF_ITEM_RULES[case["deref_item"]])
+            break
+        pos = ij[2] + len(t)
+    for a in res[("list", "all", True)][1]:
+        if a not in {r[0] for r in NV}:
+            ev.dev("address-not-in-input", observed=a, rule=DEREF_ITEM_RULES[case["deref_item"]])
+            break
+    return ev
 
 
 def evaluate(case):
     if "cut" in case:
         return eval_cut(case)
+    if "deref_item" in case:
+        return eval_deref_item(case)
     ev = Eval()
     L = case["listing"]
     NV = norm_view(L)
